@@ -493,6 +493,7 @@ func vfC13(c *hx.Ctx) {
 		"both timer-channel semantics; each call must return with the scripted outcome inside its virtual-time window. Non-trivial = at least one non-default scheduling choice.")
 	c.Assume("threads take no virtual time; a timer firing at instant T is observed 1ns after T")
 	c.ByUnit = true
+	c.AlwaysBound0 = vfC13Switch != 0 // (delay bounding: bound 0 is the one default schedule of a script)
 	bound := hx.Pick(c, 2, 3)
 	scs := vfC13Scenarios()
 	n := 2 * len(scs)
